@@ -67,6 +67,13 @@ func NewGateStore(cs chunks.ChunkStore) *GateStore {
 	return g
 }
 
+// AttemptCount: attempts that have reached the gate so far.
+func (g *GateStore) AttemptCount() int {
+	g.mu.Lock()
+	defer g.mu.Unlock()
+	return g.Attempts
+}
+
 // Waiting reports whether an attempt is parked at the gate.
 func (g *GateStore) Waiting() bool {
 	g.mu.Lock()
